@@ -201,3 +201,10 @@ def run(ctx):
     from ..initflags import group_rule, separation_rule
     group_rule(ctx, "R8.7", "logs", "a resumed run continues with some logs wiped")
     separation_rule(ctx, "R8.8")
+    # the JSON clause: pause, write, read into a new project, continue -- rests on the save/load tables of C16
+    from .C16 import r16_1, r16_2, r16_3
+    from ..jsontab import JsonTables
+    J = JsonTables(ctx)
+    r16_1(ctx, J)
+    r16_2(ctx, J)
+    r16_3(ctx, J)
